@@ -87,12 +87,13 @@ def build_harness(kind="asan"):
     out_dir = os.path.join(base, key)
     exe = os.path.join(out_dir, "fsharness" if kind == "asan" else "poolharness")
     if os.path.exists(exe):
+        os.utime(out_dir, None)
         return exe, "cached " + key
     os.makedirs(out_dir, exist_ok=True)
     # keep disk use bounded: drop other cached variants of this kind
-    for d in os.listdir(base):
-        if d != key:
-            shutil.rmtree(os.path.join(base, d), ignore_errors=True)
+    others = sorted((d for d in os.listdir(base) if d != key), key=lambda d: os.path.getmtime(os.path.join(base, d)), reverse=True)
+    for d in others[2:]:
+        shutil.rmtree(os.path.join(base, d), ignore_errors=True)
     t0 = time.time()
     jobs = []
     for tu in srcs:
